@@ -21,6 +21,8 @@ pub struct Opts {
     pub faults: bool,
     /// GOTO out of loops / blocks to a label after the enclosing top-level statement, EXIT SUB/FUNCTION inside loops
     pub jumps_out: bool,
+    /// vary indentation and join simple statements with `:` (positions spread over many columns)
+    pub relayout: bool,
 }
 
 impl Default for Opts {
@@ -40,6 +42,7 @@ impl Default for Opts {
             division: true,
             faults: false,
             jumps_out: true,
+            relayout: true,
         }
     }
 }
@@ -764,8 +767,32 @@ impl<'a> ProgGen<'a> {
         let mut all = decls;
         all.extend(main);
         all.extend(bodies);
-        self.lines = all;
+        self.lines = if self.opts.relayout { self.relayout(all) } else { all };
         self.lines.join("\n") + "\n"
+    }
+
+    /// Varies the layout without changing the statement structure: extra indentation (so that statements start
+    /// at many different columns) and `:`-joining of consecutive simple statements.
+    fn relayout(&mut self, lines: Vec<String>) -> Vec<String> {
+        fn simple(l: &str) -> bool {
+            let t = l.trim_start();
+            let first = t.split(' ').next().unwrap_or("");
+            let is_assign = t.contains(" = ") && !t.starts_with("IF ") && !t.starts_with("FOR ") && !t.starts_with("CASE") && !t.starts_with("CONST");
+            (first == "PRINT" || is_assign || first == "READ" || first == "GOSUB") && !t.ends_with(':') && !t.contains(" THEN")
+        }
+        let mut out: Vec<String> = vec![];
+        let mut i = 0;
+        while i < lines.len() {
+            let extra = if self.rng.chance(1, 3) { self.rng.below(14) as usize } else { 0 };
+            let mut line = format!("{}{}", " ".repeat(extra), lines[i]);
+            while i + 1 < lines.len() && simple(&lines[i]) && simple(&lines[i + 1]) && self.rng.chance(1, 5) {
+                line = format!("{} : {}", line, lines[i + 1].trim_start());
+                i += 1;
+            }
+            out.push(line);
+            i += 1;
+        }
+        out
     }
 }
 
@@ -773,4 +800,40 @@ pub fn generate(rng: &mut Rng, opts: &Opts) -> (String, Vec<&'static str>) {
     let mut g = ProgGen::new(rng, opts.clone());
     let text = g.program();
     (text, g.features.clone())
+}
+
+/// A "position grid": many one-line constructs of the same few kinds, each starting at its own random column on
+/// its own row, over enough rows (two- and three-digit row numbers) and columns (one- and two-digit) that the
+/// positions of same-kind constructs differ in every way a position can differ.  Whatever the code generator derives
+/// from a statement's position (its generated label names above all) must keep these apart.
+/// All programs lie in the core fragment; the final value depends on every row having run exactly once.
+pub fn grid(rng: &mut Rng) -> String {
+    let rows = 30 + rng.below(90) as usize;
+    let max_col = [12u64, 25, 45][rng.below(3) as usize];
+    // one dominant kind per program makes same-kind pairs frequent
+    let dominant = rng.below(4);
+    let mut out = vec!["V% = 0".to_owned()];
+    for r in 0..rows {
+        let indent = " ".repeat(rng.below(max_col) as usize);
+        let kind = if rng.chance(3, 4) { dominant } else { rng.below(4) };
+        let k = rng.below(3);
+        let line = match kind {
+            0 => format!("IF V% MOD 3 = {} THEN V% = V% + 1 ELSE V% = V% + 2", k),
+            1 => format!("WHILE V% MOD 5 = {}: V% = V% + 1: WEND", k),
+            2 => format!("DO WHILE V% MOD 4 = {}: V% = V% + 1: LOOP", k),
+            _ => format!("FOR I% = 1 TO {}: V% = V% + I%: NEXT", k + 1),
+        };
+        // now and then a second construct on the same row
+        if rng.chance(1, 6) {
+            out.push(format!("{}{}: IF V% > 30000 THEN V% = 0", indent, line));
+        } else {
+            out.push(format!("{}{}", indent, line));
+        }
+        if r % 8 == 7 {
+            out.push(format!("{}PRINT V%", " ".repeat(rng.below(6) as usize)));
+            out.push(format!("{}IF V% > 20000 THEN V% = 0", " ".repeat(rng.below(max_col) as usize)));
+        }
+    }
+    out.push("PRINT V%".to_owned());
+    out.join("\n") + "\n"
 }
